@@ -190,9 +190,7 @@ func runSession(ss session, fail func(kind, what string)) {
 	}
 	cancel()
 	if n := waitGoroutines(baseline, 4*time.Second); n > baseline {
-		buf := make([]byte, 1<<16)
-		buf = buf[:runtime.Stack(buf, true)]
-		fail("goroutine-leak", fmt.Sprintf("%d goroutines alive 4s after everything was closed (baseline %d); stacks: %.1500s", n, baseline, string(buf)))
+		fail("goroutine-leak", fmt.Sprintf("%d goroutines alive 4s after everything was closed (baseline %d); stacks: %.2500s", n, baseline, stacks()))
 	}
 }
 
